@@ -241,10 +241,15 @@ namespace embedded_pairing::wkdibe {
         return true;
     }
 
+    /*
+     * The index is stored as bytes (big endian), not as a uint32_t, because
+     * marshalled free slots follow a one-byte header and so are generally not
+     * four-byte aligned within the caller's buffer.
+     */
     template <bool compressed>
     struct FreeSlotMarshalled {
         Encoding<G1Affine, compressed> hexp;
-        uint32_t idx;
+        uint8_t idx[4];
     };
 
     template <bool compressed>
@@ -255,7 +260,8 @@ namespace embedded_pairing::wkdibe {
         hexpaffine.from_projective(this->hexp);
         encoded->hexp.encode(hexpaffine);
 
-        encoded->idx = uint32_swap_endianness(this->idx);
+        uint32_t idx_big_endian = uint32_swap_endianness(this->idx);
+        memcpy(encoded->idx, &idx_big_endian, sizeof(idx_big_endian));
     }
 
     template <bool compressed>
@@ -268,7 +274,9 @@ namespace embedded_pairing::wkdibe {
         }
         this->hexp.from_affine(hexpaffine);
 
-        this->idx = uint32_swap_endianness(encoded->idx);
+        uint32_t idx_big_endian;
+        memcpy(&idx_big_endian, encoded->idx, sizeof(idx_big_endian));
+        this->idx = uint32_swap_endianness(idx_big_endian);
         return true;
     }
 
